@@ -7,6 +7,7 @@ def run(ctx):
     core.design_check(ctx, "Route.tla", "Route.cfg", timeout=900)
     behs = core.generate(ctx, "Gen_Route.tla", "Gen_Route.cfg", 0, 0, ctx.seed, bfs=True, timeout=900)
     rehang = core.generate(ctx, "Gen_Route.tla", "Gen_Route_rehang.cfg", 0, 0, ctx.seed, bfs=True, timeout=900)      # the chain re-hung under the traffic
+    life = core.generate(ctx, "Gen_Route.tla", "Gen_Route_life.cfg", 0, 0, ctx.seed, bfs=True, timeout=900)      # a hop re-keys, the teamserver restarts, a middle hop's queue is cleared
     # the BFS emits every (chain, id-class assignment, 3 routing steps); keep one behaviour per configuration
     rnd = random.Random(ctx.seed)
     byconf = {}
@@ -20,7 +21,10 @@ def run(ctx):
         rnd.shuffle(picked); picked = picked[:400]
     rnd.shuffle(rehang)
     picked += rehang[:150 if quick else 2000]
-    ctx.say("  configurations: %d chains x id classes in the model, %d replayed (with %d histories in which the chain is re-hung under the traffic)" % (total_confs, len(picked), min(len(rehang), 150 if quick else 2000)))
+    rnd.shuffle(life)
+    picked += life[:120 if quick else 2000]
+    ctx.say("  configurations: %d chains x id classes in the model, %d replayed (with %d histories in which the chain is re-hung under the traffic and %d of %d in which a hop re-keys and the teamserver restarts or a middle hop's queue is cleared)"
+            % (total_confs, len(picked), min(len(rehang), 150 if quick else 2000), min(len(life), 120 if quick else 2000), len(life)))
     hb = core.build_harness(ctx)
     trace, summ = core.run_harness(ctx, hb, "route", picked, "route", timeout=2400)
     for inc in summ["incidents"]:
